@@ -5,11 +5,12 @@ package main
 // documents as trees for the schema validator of the model.
 
 import (
-	"path/filepath"
-	"os"
-	"io"
+	"encoding/json"
 	"fmt"
+	"io"
 	"math/rand"
+	"os"
+	"path/filepath"
 	"reflect"
 	"sort"
 	"strings"
@@ -21,6 +22,7 @@ import (
 
 type cfgStats struct {
 	cases, strictOK, strictRejected, expandCases int
+	fileParses                                   int
 	distinct                                     map[string]struct{}
 	samples                                      []string
 	positions                                    int
@@ -169,6 +171,41 @@ func parseClass(doc string, env map[string]string) (string, *nfpm.Config) {
 	}
 }
 
+// asJSON renders a YAML document as JSON (empty when it has no JSON rendering: non-string keys, duplicate keys)
+func asJSON(doc string) string {
+	var v any
+	if err := yaml.Unmarshal([]byte(doc), &v); err != nil {
+		return ""
+	}
+	b, err := json.MarshalIndent(v, "", "\t")
+	if err != nil {
+		return ""
+	}
+	return string(b)
+}
+
+func parseFileClass(path string) string {
+	var err error
+	func() {
+		defer func() {
+			if r := recover(); r != nil {
+				err = fmt.Errorf("panic: %v", r)
+			}
+		}()
+		_, err = nfpm.ParseFileWithEnvMapping(path, func(string) string { return "" })
+	}()
+	switch {
+	case err == nil:
+		return "ok"
+	case strings.HasPrefix(err.Error(), "panic"):
+		return "panic"
+	case strings.Contains(err.Error(), "not found in type"):
+		return "unknownkey"
+	default:
+		return "other"
+	}
+}
+
 func emitStrictCase(w *caseWriter, id, doc string, st *cfgStats, what string) {
 	var root yaml.Node
 	if err := yaml.Unmarshal([]byte(doc), &root); err != nil {
@@ -180,6 +217,25 @@ func emitStrictCase(w *caseWriter, id, doc string, st *cfgStats, what string) {
 	w.line("strict %s %s %s", id, cls, strings.Join(toks, " "))
 	writeDesc(id, map[string]string{"kind": "strict", "yaml": doc, "what": what})
 	st.cases++
+	// the same document read from a file, under a .yaml name and - rendered as JSON, which is YAML - under a .json
+	// name: which door a document comes through does not change which keys are accepted
+	for _, v := range []struct{ suffix, name, body string }{{"-from-yaml-file", "nfpm.yaml", doc}, {"-from-json-file", "nfpm.json", asJSON(doc)}} {
+		if v.body == "" {
+			continue
+		}
+		dir, err := os.MkdirTemp("", "verif-c16-")
+		must(err)
+		path := filepath.Join(dir, v.name)
+		must(os.WriteFile(path, []byte(v.body), 0o644))
+		c2 := parseFileClass(path)
+		os.RemoveAll(dir)
+		if c2 != cls {
+			w.line("strict %s %s %s", id+v.suffix, c2, strings.Join(toks, " "))
+			writeDesc(id+v.suffix, map[string]string{"kind": "strict", "yaml": v.body, "what": what + " (read with ParseFile from " + v.name + ")", "file_name": v.name})
+			st.cases++
+		}
+		st.fileParses++
+	}
 	if cls == "ok" {
 		st.strictOK++
 	} else {
@@ -231,7 +287,12 @@ func misspellKey(doc string, k int, rng *rand.Rand) (string, string, bool) {
 	m := ms[k]
 	i := 2 * rng.Intn(len(m.n.Content)/2)
 	old := m.n.Content[i].Value
-	m.n.Content[i].Value = old + "x"
+	if rng.Intn(2) == 0 && old != "" && strings.ToUpper(old[:1]) != old[:1] {
+		// the same name in another letter case is another name
+		m.n.Content[i].Value = strings.ToUpper(old[:1]) + old[1:]
+	} else {
+		m.n.Content[i].Value = old + "x"
+	}
 	b, err := yaml.Marshal(&root)
 	if err != nil {
 		return "", "", false
@@ -392,13 +453,55 @@ overrides:
       predepends: ["${VX}"]
 `
 
+// withoutPackagers runs f with the packager registry empty (a library user that parses before importing any packager)
+func withoutPackagers(f func()) {
+	saved := map[string]nfpm.Packager{}
+	for _, name := range nfpm.Enumerate() {
+		if p, err := nfpm.Get(name); err == nil {
+			saved[name] = p
+		}
+	}
+	nfpm.ClearPackagers()
+	defer func() {
+		for n, p := range saved {
+			nfpm.RegisterPackager(n, p)
+		}
+	}()
+	f()
+}
+
+// what a document expands to does not depend on which packagers happen to be registered while it is parsed
 func emitExpandCase(w *caseWriter, id string, doc string, env map[string]string, st *cfgStats) {
+	first := emitExpandCaseWith(w, id, doc, env, st, func(f func()) { f() }, "")
+	withoutPackagers(func() {
+		emitExpandCaseWith(w, id+"-parsed-with-no-packager-registered", doc, env, st, func(f func()) { f() }, first)
+	})
+}
+
+// emits the case unless its outcome equals [skipIfEqual]; returns a rendering of the outcome
+func emitExpandCaseWith(w *caseWriter, id string, doc string, env map[string]string, st *cfgStats, run func(func()), skipIfEqual string) string {
 	// the raw values: decode without the expansion pass (plain yaml.v3, same strictness is irrelevant here)
 	var raw nfpm.Config
 	if err := yaml.Unmarshal([]byte(doc), &raw); err != nil {
-		return
+		return ""
 	}
 	cls, cfg := parseClass(doc, env)
+	outcome := cls
+	if cfg != nil {
+		l := map[string]string{}
+		stringLeaves(reflect.ValueOf(*cfg), "", l)
+		var ks []string
+		for k := range l {
+			ks = append(ks, k)
+		}
+		sort.Strings(ks)
+		for _, k := range ks {
+			outcome += "\x00" + k + "\x01" + l[k]
+		}
+	}
+	if skipIfEqual != "" && outcome == skipIfEqual {
+		return outcome
+	}
 	w.line("expand %s %s", id, cls)
 	var ks []string
 	for k := range env {
@@ -434,6 +537,7 @@ func emitExpandCase(w *caseWriter, id string, doc string, env map[string]string,
 	writeDesc(id, map[string]any{"kind": "expand", "yaml": doc, "env": env})
 	st.cases++
 	st.expandCases++
+	return outcome
 }
 
 func cmdC16(prop, tier string, seed int64, out, statsOut, replay string) {
@@ -486,7 +590,7 @@ func cmdC16(prop, tier string, seed int64, out, statsOut, replay string) {
 	if prop == "C17" {
 		probes := []struct {
 			format, block, key string
-			values              []string
+			values             []string
 		}{
 			{"rpm", "rpm", "compression", []string{"gzip", "lzma", "xz", "zstd", "gzip:9", "zstd:3", "xz:6", "lzma:1", "bzip2", "gzip:x"}},
 			{"deb", "deb", "compression", []string{"gzip", "xz", "zstd", "none", "gzip:9", "zstd:19", "zstd:3", "xz:6", "none:1", "bzip2"}},
@@ -560,6 +664,6 @@ func cmdC16(prop, tier string, seed int64, out, statsOut, replay string) {
 	}
 	w.close()
 	writeJSON(statsOut, map[string]any{"cases": st.cases, "distinct": len(st.distinct), "distinct_nontrivial": len(st.distinct),
-		"accepted": st.strictOK, "rejected": st.strictRejected, "mapping_positions_of_full_document": st.positions,
+		"accepted": st.strictOK, "rejected": st.strictRejected, "documents_also_parsed_from_files": st.fileParses, "mapping_positions_of_full_document": st.positions,
 		"expansion_cases": st.expandCases, "samples": st.samples})
 }
